@@ -6,7 +6,7 @@ VARIABLE pending
 
 SimInit == Init /\ pending = "none"
 
-KindsStore == {"publish", "publish", "remove", "import"}
+KindsStore == {"publish", "publish", "remove", "import", "echo"}
 KindsNotify == {"publish", "remove", "listen", "listen_current", "tick", "subscribe", "unsubscribe", "disconnect"}
 
 SimNext ==
@@ -16,6 +16,7 @@ SimNext ==
     \/ /\ pending = "publish" /\ pending' = "none" /\ \E k \in Keys, v \in Contents, ty \in Types \cup {""}, e \in BOOLEAN : ((~e \/ (WithListeners /\ ty = "")) /\ Publish(k, v, ty, e))
     \/ /\ pending = "remove" /\ pending' = "none" /\ \E k \in Keys : Remove(k)
     \/ /\ pending = "import" /\ pending' = "none" /\ \E k \in Keys, v \in Contents : Import(k, v)
+    \/ /\ pending = "echo" /\ pending' = "none" /\ \E k \in Keys, v \in Contents : Echo(k, v)
     \/ /\ pending = "listen" /\ pending' = "none" /\ \E l \in Lids, items \in ItemSets, dt \in {0, 1, 100, 100} : (l = Cardinality(usedL) + 1 /\ Listen(l, items, dt))
     \* a client that holds the CURRENT md5 of every key it asks about: gets registered
     \/ /\ pending = "listen_current" /\ pending' = "none"
